@@ -28,6 +28,17 @@ FLOORS = {'quick': {'evaluations': 2000, 'nontrivial': 1200, 'counters': {'audit
           'thorough': {'evaluations': 50000, 'nontrivial': 30000, 'counters': {'audit_events_seen': 20000, 'sources_tokenized': 6000, 'round_trips': 10000}}}
 
 ALPHA = list('\'"\\\n\t#{}%(),;*?~=+ -.:!$&<>|/[]@^`') + list('abXY019_') + ['""', "''", '\\\\', '{0}', '{titles}', '{functions}', '%s', '\\n', '\\x41', "\\'", '__', ' or ', '#!']
+# modules the runtime helpers import lazily on first use (datetime.strptime -> _strptime, dateutil's parser tables): loaded here, so
+# that an import (marshal.loads + exec of a standard-library module) does not happen inside an armed window
+import _strptime  # noqa: E402,F401
+import dateutil.parser  # noqa: E402,F401
+import dateutil.relativedelta  # noqa: E402,F401
+import calendar  # noqa: E402,F401
+import decimal  # noqa: E402,F401
+import locale  # noqa: E402,F401
+__import__("datetime").datetime.strptime("2024-01-31", "%Y-%m-%d")
+dateutil.parser.parse('2024-01-31')
+
 ALLOW_IMPORT = ('datetime', 'dateutil', 'math', 'typing', 'calendar', 're', 'itertools', 'decimal', 'string', '_strptime', 'time', 'locale',
                 'encodings', 'six', 'collections', 'functools', 'operator', 'enum', 'abc', 'sre_', '_', 'warnings', 'fractions', 'numbers', 'copy',
                 'bisect', 'heapq', 'keyword', 'reprlib', 'types', 'weakref', 'contextlib', 'zoneinfo', 'importlib', 'struct', 'tzdata', 'sysconfig', 'os', 'posixpath', 'stat', 'genericpath', 'io', 'sys')
@@ -112,6 +123,10 @@ def gen_string(rng, idx, canary_dir):
         payload = rng.choice(["'", '"', "'''"]) + f"+str(setattr(__import__('builtins'),'PWNED_{idx}',1))#"
     elif k < 0.43:
         payload = rng.choice(["'", '"']) + f"+str(open('{canary}','w'))#" + rng.choice(["'", '"', ''])
+    elif k < 0.50:
+        # a bare expression (no quote to close): harmless unless some helper evaluates the text itself
+        payload = rng.choice(['', '+', '-0+', '*', ' and ', ' if ']) + rng.choice([f"(setattr(__import__('builtins'),'PWNED_{idx}',1) is None)",
+                                                                                   f"(__import__ ('os').mkdir ('{canary}') is None)", f"open('{canary}','w').close()"])
     pos = rng.randrange(0, len(body) + 1)
     s = body[:pos] + marker + (payload or '') + body[pos:]
     return s, marker, idx, payload is not None
@@ -124,7 +139,8 @@ def q(s):
 
 PLACEMENTS = ['const', 'literal', 'left', 'concat', 'if', 'sumif', 'countifs', 'countifs_op', 'countifs_amp', 'sumifs', 'averageifs', 'pattern',
               'pattern_then_literal', 'search', 'whole_formula', 'crit_amp_cell', 'crit_op_amp_cell', 'crit_amp_literal', 'crit_amp_number',
-              'amp_left', 'amp_right', 'amp_plain_then', 'amp_quote_then', 'amp_three']
+              'amp_left', 'amp_right', 'amp_plain_then', 'amp_quote_then', 'amp_three',
+              'value_fn', 'value_fn_lead', 'year_fn', 'text_fn', 'search_fn_lead', 'round_fn', 'datedif_fn']
 
 
 def place(rng, s, how):
@@ -170,6 +186,23 @@ def place(rng, s, how):
         return f'="it\'s"&{q(s)}', "it's" + s
     if how == 'amp_three':
         return f'={q(s)}&{q(s)}&"\'"', s + s + "'"
+    # runtime helpers that INTERPRET a text (number, fraction, percentage, date and time notations): whatever they do with it, the text
+    # must not run. A lead-in makes the text start like something such a helper may try to understand
+    lead = rng.choice(['1/2 ', '3 1/2', '1/2-0+', '12:30 ', '50% ', '2024-01-31 ', '1e3', '0x1f', '1_000', '-7 ', '31/01/2024 ', '1,5 ', '(1)', '1 2/3*'])
+    if how == 'value_fn':
+        return f'=VALUE({q(s)})', None
+    if how == 'value_fn_lead':
+        return f'=VALUE({q(lead + s)})', None
+    if how == 'year_fn':
+        return f'=YEAR({q(lead + s)})+MONTH({q(s)})', None
+    if how == 'text_fn':
+        return f'=TEXT({q(lead + s)},{q(s)})', None
+    if how == 'search_fn_lead':
+        return f'=SEARCH({q(lead + s)},{q(s)},1)', None
+    if how == 'round_fn':
+        return f'=ROUND({q(lead + s)},{q(lead)})', None
+    if how == 'datedif_fn':
+        return f'=DATEDIF({q(lead + s)},{q(s)},{q(s)})', None
     if how == 'crit_amp_cell':
         # "text"&expression criteria: the criterion text is put together when the cell is evaluated
         return f'=COUNTIFS(A1:A3,{q(s)}&B1)', None
